@@ -325,4 +325,20 @@ def corpus_descs():
                  cc.param("txt", dict(k="value", dop=cc.simple(cc.paramlen(cc.BUNI, "len")), dflt=None)),
                  cc.param("tail", dict(k="value", dop=u8(), dflt=None))], False,
                 [dict(txt=v, tail=0x5A) for v in uni_vals]))
+    # a STATIC-FIELD whose items have a size which depends on the PDU (byte field with a leading length byte): items
+    # which fit, fill and exceed ITEM-BYTE-SIZE
+    lit = cc.struct([cc.param("blob", dict(k="value", dop=cc.simple(cc.leading(cc.BBYTES, 8)), dflt=None))])
+    out.append(([cc.param("sid", dict(k="coded", dct=cc.std(cc.BUINT, 8), v=0x22)),
+                 cc.param("f", dict(k="value", dop=dict(k="static", s=lit, n=2, isz=3), dflt=None))], False,
+                [{"f": [{"blob": b"a"}, {"blob": b"bc"}]}, {"f": [{"blob": b""}, {"blob": b""}]}, {"f": [{"blob": b"abc"}, {"blob": b""}]}],
+                [bytes.fromhex(h) for h in ("22016100026263", "220501020304050607", "2202616203010203", "22000000000000", "2203616263000000")]))
+    # a multiplexer behind the service id with a case without content, followed by a parameter at an explicit position
+    mx = dict(k="mux", bp=1, kb=0, kbit=0, key=cc.simple(cc.std(cc.BUINT, 8)),
+              cases=[dict(name="with_data", lo=1, hi=1, s=cc.struct([cc.param("d", dict(k="value", dop=u8(), dflt=None))])),
+                     dict(name="nothing", lo=2, hi=3, s=None)], dflt=None)
+    out.append(([cc.param("sid", dict(k="coded", dct=cc.std(cc.BUINT, 8), v=0x25)),
+                 cc.param("m", dict(k="value", dop=mx, dflt=None)),
+                 cc.param("tail", dict(k="value", dop=u8(), dflt=None), 3)], False,
+                [{"m": ["with_data", {"d": 0x5A}], "tail": 0xAA}, {"m": ["nothing", {}], "tail": 0xAA}, {"m": [3, None], "tail": 1},
+                 {"m": [None, {}], "tail": 1}]))
     return out
